@@ -22,11 +22,15 @@ ROUND = os.environ.get("SEED_ROUND", "")
 
 
 def sh(cmd, **kw):
-    return subprocess.run(cmd, capture_output=True, text=True, **kw)
+    kw.setdefault("timeout", 1800)
+    try:
+        return subprocess.run(cmd, capture_output=True, text=True, **kw)
+    except subprocess.TimeoutExpired:
+        return subprocess.CompletedProcess(cmd, 124, "", "timed out")
 
 
-def evaluate(prop: str, letter: str, also):
-    src = os.path.join(OUT, prop)
+def evaluate(prop: str, letter: str, also, srcdir=None, sid=None):
+    src = srcdir or os.path.join(OUT, prop)
     patch = os.path.join(src, f"patch_{letter}.diff")
     demo = os.path.join(src, f"demo_{letter}.py")
     if not os.path.exists(patch):
@@ -34,7 +38,7 @@ def evaluate(prop: str, letter: str, also):
         return None
     wt = tempfile.mkdtemp(prefix=f"seed-{prop}{letter}-")
     ev = tempfile.mkdtemp(prefix=f"seed-ev-{prop}{letter}-")
-    res = {"property": prop, "id": f"{prop}-{ROUND}{letter}"}
+    res = {"property": prop, "id": sid or f"{prop}-{ROUND}{letter}"}
     try:
         sh(["git", "-C", REPO, "worktree", "add", "-q", "--detach", wt, "HEAD"], check=True)
         # demo on the unmodified tree
@@ -66,7 +70,46 @@ def evaluate(prop: str, letter: str, also):
     return res
 
 
+def main_by_dir():
+    """usage: python -m harness.seed_eval --dir /tmp/wt-out7/K05 [A|B] [--also C13]: the property is read from property_<letter>.txt"""
+    srcdir = sys.argv[sys.argv.index("--dir") + 1]
+    key = os.path.basename(srcdir.rstrip("/"))
+    letters = [a for a in sys.argv[1:] if a in ("A", "B")] or ["A", "B"]
+    also = sys.argv[sys.argv.index("--also") + 1].split(",") if "--also" in sys.argv else []
+    for letter in letters:
+        pf = os.path.join(srcdir, f"property_{letter}.txt")
+        if not os.path.exists(pf):
+            print(f"{key}-{letter}: no property file")
+            continue
+        prop = re.search(r"C\d\d", open(pf).read()).group(0)
+        sid = f"{prop}-{ROUND}{key}{letter}"
+        r = evaluate(prop, letter, also, srcdir=srcdir, sid=sid)
+        if r is None:
+            continue
+        dst = os.path.join(VERIF, "seeded", sid)
+        os.makedirs(dst, exist_ok=True)
+        shutil.copy(os.path.join(srcdir, f"patch_{letter}.diff"), os.path.join(dst, "patch.diff"))
+        shutil.copy(os.path.join(srcdir, f"demo_{letter}.py"), os.path.join(dst, "demo.py"))
+        if os.path.exists(os.path.join(srcdir, "notes.md")):
+            shutil.copy(os.path.join(srcdir, "notes.md"), os.path.join(dst, "notes_from_author.md"))
+        valid = bool(r.get("applies") and r.get("tests_ok") and r.get("demo_with_patch_rc") not in (0, None)
+                     and r.get("demo_without_patch_rc") == 0)
+        r["confirmed"] = valid
+        with open(os.path.join(dst, "eval.json"), "w") as fh:
+            json.dump(r, fh, indent=1)
+        caught = {p: v["caught"] for p, v in r.get("checks", {}).items()}
+        print(f"{sid}: confirmed={valid} tests={r.get('tests')} demo(with)={r.get('demo_with_patch_rc')} "
+              f"demo(without)={r.get('demo_without_patch_rc')} caught={caught}")
+        for p, v in r.get("checks", {}).items():
+            for sg in v["signatures"][:2]:
+                print("    ", p, sg[:200])
+            if v["tail"]:
+                print("    ", p, "rc", v["rc"], v["tail"][-200:])
+
+
 def main():
+    if "--dir" in sys.argv:
+        return main_by_dir()
     prop = sys.argv[1]
     letters = [a for a in sys.argv[2:] if a in ("A", "B")] or ["A", "B"]
     also = []
